@@ -188,6 +188,7 @@ def build(src, workdir, groups=('G1', 'G2')):
           "pub fn set_v(&mut self, x: F2) { *self = Fq2::from_v(x); } pub fn fresh(p: &str) -> Fq2 { Fq2 { c0: Fq::fresh(&format!(\"{}__c0\", p)), c1: Fq::fresh(&format!(\"{}__c1\", p)) } } }",
           "impl Flat for F2 { fn flat(&self, out: &mut Vec<Sym>) { self.c0.flat(out); self.c1.flat(out); } }",
           "impl Flat for Fq2 { fn flat(&self, out: &mut Vec<Sym>) { self.v().flat(out); } }",
+          "impl IsZeroSym for F2 { fn zero_eqs(&self) -> Vec<(Sym, Sym)> { vec![(self.c0, fzero()), (self.c1, fzero())] } }",
           "impl PartialEq for F2 { fn eq(&self, o: &F2) -> bool { decide(\"eq\", vec![(self.c0, o.c0), (self.c1, o.c1)]) } }",
           "impl PartialEq for Fq2 { fn eq(&self, o: &Fq2) -> bool { self.v() == o.v() } }",
           "impl Fq2 {"]
